@@ -269,7 +269,13 @@ pub fn c16_worker(ctx: &mut Ctx) {
 pub fn c17_history(seed: u64, label: &str, index: u64, steps: usize, universe: i32, st: &mut SplayStats) -> Result<(), (String, Vec<String>)> {
     let mut rng = Rng::keyed(seed, label, index);
     let mut log = Vec::new();
-    let r = if index % 5 == 4 { random_set_history(&mut rng, steps, universe, st) } else { random_history(&mut rng, steps, universe, st, &mut log) };
+    let r = if index % 5 == 4 {
+        random_set_history(&mut rng, steps, universe, st)
+    } else if index % 5 == 3 {
+        random_tagged_history(&mut rng, steps, universe, st)
+    } else {
+        random_history(&mut rng, steps, universe, st, &mut log)
+    };
     r.map_err(|m| (m, log))
 }
 
